@@ -25,10 +25,16 @@ structure Fixes where
   /-- F-C09c: empty candidate list ↦ NaN without calling the reduction, and matching is
       restricted to the columns that have a finite cost -/
   stale : Bool
+  /-- F-C09d (6ecdd3f): when nothing was matched `update_tracks` still calls `add_new_tracks` for all
+      detections (before: the guard skipped it and they were dropped / left untracked).  The patch also
+      leaves detections without a finite cost out of the matching (`valid_rows`); on the model's cost
+      matrices (`ColPattern`: +∞ fills whole columns) that selection is the identity whenever a valid
+      column exists and nothing is matched otherwise, so it is not represented separately. -/
+  nanSafe : Bool
 deriving DecidableEq, Repr
 
-def Fixes.repaired : Fixes := ⟨true, true, true⟩
-def Fixes.asIs : Fixes := ⟨false, false, false⟩
+def Fixes.repaired : Fixes := ⟨true, true, true, true⟩
+def Fixes.asIs : Fixes := ⟨false, false, false, false⟩
 
 /-- the exceptions the pinned code can raise on finite inputs -/
 inductive Err
@@ -183,6 +189,13 @@ def FW.cands {φ : Type} (s : FW φ) (t : Nat) : List φ :=
 section fw
 variable {R : Type} {φ : Type} [LT R] [DecidableLT R]
 
+/-- empty queue: `add_new_tracks(current_instances)`, appended only if a track was created -/
+def FW.init (cfg : Config R) (s : FW φ) (cur : List (φ × R)) : FW φ × List (Option Nat) :=
+  let r := allocate cfg.thr (cur.map (·.2)) (List.replicate cur.length none) s.tracks
+  if r.1.any Option.isSome then
+    (⟨pushBounded cfg.window s.queue ⟨cur.map (·.1), r.1⟩, r.2⟩, r.1)
+  else (⟨s.queue, r.2⟩, r.1)
+
 /-- `update_tracks` (+ `add_new_tracks(add_to_queue=False)`); returns the new state and the
     track id of every input detection -/
 def FW.update (cfg : Config R) (s : FW φ) (cur : List (φ × R)) (ms : List (Nat × Nat)) :
@@ -190,14 +203,8 @@ def FW.update (cfg : Config R) (s : FW φ) (cur : List (φ × R)) (ms : List (Na
   if guardOk cfg.fx ms then
     let r := allocate cfg.thr (cur.map (·.2)) (assignIds cur.length ms) s.tracks
     (⟨pushBounded cfg.window s.queue ⟨cur.map (·.1), r.1⟩, r.2⟩, r.1)
+  else if cfg.fx.nanSafe then FW.init cfg s cur      -- `elif row_inds is not None: add_new_tracks(all)`
   else (s, List.replicate cur.length none)
-
-/-- empty queue: `add_new_tracks(current_instances)`, appended only if a track was created -/
-def FW.init (cfg : Config R) (s : FW φ) (cur : List (φ × R)) : FW φ × List (Option Nat) :=
-  let r := allocate cfg.thr (cur.map (·.2)) (List.replicate cur.length none) s.tracks
-  if r.1.any Option.isSome then
-    (⟨pushBounded cfg.window s.queue ⟨cur.map (·.1), r.1⟩, r.2⟩, r.1)
-  else (⟨s.queue, r.2⟩, r.1)
 
 /-- the part of `track` after `get_scores`, given the score matrix -/
 def FW.stepWith [Neg R] (cfg : Config R) (ext : Ext R) (s : FW φ) (cur : List (φ × R))
@@ -263,6 +270,12 @@ def appendNew {φ : Type} (w : Nat) (qs : List (Nat × List φ)) :
 section lq
 variable {R : Type} {φ : Type} [LT R] [DecidableLT R]
 
+/-- empty dict: `add_new_tracks(current_instances)` -/
+def LQ.init (cfg : Config R) (s : LQ φ) (cur : List (φ × R)) : LQ φ × List (Option Nat) :=
+  let ids0 := List.replicate cur.length (none : Option Nat)
+  let r := allocate cfg.thr (cur.map (·.2)) ids0 s.tracks
+  (⟨appendNew cfg.window s.queues ids0 r.1 (cur.map (·.1)), r.2⟩, r.1)
+
 /-- `LocalQueueCandidates.update_tracks` -/
 def LQ.update (cfg : Config R) (s : LQ φ) (cur : List (φ × R)) (ms : List (Nat × Nat)) :
     Except Err (LQ φ × List (Option Nat)) :=
@@ -275,13 +288,8 @@ def LQ.update (cfg : Config R) (s : LQ φ) (cur : List (φ × R)) (ms : List (Na
     else
       let r := allocate cfg.thr (cur.map (·.2)) ids0 s.tracks
       .ok (⟨appendNew cfg.window qs1 ids0 r.1 feats, r.2⟩, r.1)
+  else if cfg.fx.nanSafe then .ok (LQ.init cfg s cur)   -- `elif row_inds is not None: add_new_tracks(all)`
   else .ok (s, List.replicate cur.length none)
-
-/-- empty dict: `add_new_tracks(current_instances)` -/
-def LQ.init (cfg : Config R) (s : LQ φ) (cur : List (φ × R)) : LQ φ × List (Option Nat) :=
-  let ids0 := List.replicate cur.length (none : Option Nat)
-  let r := allocate cfg.thr (cur.map (·.2)) ids0 s.tracks
-  (⟨appendNew cfg.window s.queues ids0 r.1 (cur.map (·.1)), r.2⟩, r.1)
 
 def LQ.stepWith [Neg R] (cfg : Config R) (ext : Ext R) (s : LQ φ) (cur : List (φ × R))
     (sc : List (List (Option R))) : Except Err (LQ φ × List (Option Nat)) :=
